@@ -499,7 +499,11 @@ impl Report {
         if self.ctx.replay.is_none() {
             let dir = self.ctx.out_dir.join("evidence");
             let _ = std::fs::create_dir_all(&dir);
-            let path = dir.join(format!("{}.json", self.ctx.prop));
+            // a check made of two engines writes parts that the driver merges (tools/merge_evidence.py)
+            let path = match std::env::var("VERIF_EVIDENCE_PART") {
+                Ok(part) if !part.is_empty() => dir.join(format!("{}.part-{}.json", self.ctx.prop, part)),
+                _ => dir.join(format!("{}.json", self.ctx.prop)),
+            };
             if let Err(e) = std::fs::write(&path, serde_json::to_string_pretty(&ev).unwrap()) {
                 eprintln!("cannot write evidence {}: {e}", path.display());
                 return 2;
@@ -687,6 +691,8 @@ pub struct WorkerOutcome {
     /// None: killed by the watchdog
     pub status: Option<std::process::ExitStatus>,
     pub stderr_tail: String,
+    /// content of the worker's crash record (`crash-<i>.json` in the worker directory), if any
+    pub crash_record: Option<String>,
 }
 
 /// Runs `body` in `n` worker processes (or in-process for replay / when VERIF_WORKERS=0), merges
@@ -722,6 +728,7 @@ pub fn run_in_workers(
             .args(&args)
             .env("VERIF_WORKER", format!("{i}/{n}"))
             .env("VERIF_WORKER_DIR", &dir)
+            .env("RAYON_NUM_THREADS", std::env::var("VERIF_WORKER_THREADS").unwrap_or_else(|_| "2".to_string()))
             .stdin(std::process::Stdio::null())
             .stdout(std::process::Stdio::null())
             .stderr(std::process::Stdio::from(std::fs::File::create(dir.join(format!("w{i}.err"))).expect("stderr file")))
@@ -750,14 +757,15 @@ pub fn run_in_workers(
                         }
                     } else {
                         let tail: String = err.lines().rev().take(12).collect::<Vec<_>>().into_iter().rev().collect::<Vec<_>>().join("\n");
-                        bad.push(WorkerOutcome { index: i, status: Some(status), stderr_tail: tail });
+                        let crash_record = std::fs::read_to_string(dir.join(format!("crash-{i}.json"))).ok().filter(|c| !c.trim().is_empty());
+                        bad.push(WorkerOutcome { index: i, status: Some(status), stderr_tail: tail, crash_record });
                     }
                 }
                 Ok(None) => {
                     if start.elapsed() > limit {
                         let _ = child.kill();
                         let _ = child.wait();
-                        bad.push(WorkerOutcome { index: i, status: None, stderr_tail: String::new() });
+                        bad.push(WorkerOutcome { index: i, status: None, stderr_tail: String::new(), crash_record: None });
                     } else {
                         still.push((i, child));
                     }
